@@ -29,7 +29,7 @@ pub fn plan(p: &EpParams) -> Plan {
     Plan {
         episodes: n,
         exhaustive: false,
-        rule: "life-cycle walks: 6-14 steps over {create push subscription to endpoint A|B, create pull-only subscription, create with a topic of a foreign project (rejected), delete subscription, a DeleteSubscription abandoned by its client followed at once by a push create of the same name, delete topic, re-create topic} on 3 subscription names x 2 topics in 2 projects with name reuse; after every step one tagged message is published to every live topic and 3 push intervals pass. Both endpoints answer 200. Oracle: reference model of (name -> topic incarnation, endpoint); POSTs compared with the model per message, pull-only subscriptions read back, push registry compared with the model at the end. Non-trivial: a name was reused after a deletion or a rejected create, and >=1 POST was observed. Distinct: the step sequence.".into(),
+        rule: "life-cycle walks: 6-14 steps over {create push subscription to endpoint A|B, create pull-only subscription, create with a topic of a foreign project (rejected), create with a push endpoint that starts like a URL but is none, delete subscription, a DeleteSubscription abandoned by its client followed at once by a push create of the same name, delete topic, re-create topic} on 3 subscription names x 2 topics in 2 projects with name reuse; after every step one tagged message is published to every live topic and 3 push intervals pass. Both endpoints answer 200. Oracle: reference model of (name -> topic incarnation, endpoint); POSTs compared with the model per message, pull-only subscriptions read back, push registry compared with the model at the end. Non-trivial: a name was reused after a deletion or a rejected create, and >=1 POST was observed. Distinct: the step sequence.".into(),
     }
 }
 
@@ -60,6 +60,7 @@ async fn episode(p: &EpParams) -> EpReport {
         e.set_fallback(Behaviour::Status(200));
     }
     let topics = [topic_name(1, 1), topic_name(2, 1)];
+    let odd_urls = ["http", "http//host/push", "https://", "http://127.0.0.1:99999/", "http://[::1/push", "httpx://nowhere"];
     let names = [sub_name(1, 1), sub_name(1, 2), sub_name(2, 1)];
     // model
     let mut live_topic: HashMap<String, u32> = HashMap::new(); // name -> incarnation
@@ -82,7 +83,27 @@ async fn episode(p: &EpParams) -> EpReport {
         let name = rng.pick(&names).clone();
         let own_topic = if name.starts_with("projects/p1/") { topics[0].clone() } else { topics[1].clone() };
         let foreign_topic = if name.starts_with("projects/p1/") { topics[1].clone() } else { topics[0].clone() };
-        match rng.below(11) {
+        match rng.below(12) {
+            11 => {
+                // a push endpoint that starts like a URL but is none: whether the create is accepted or
+                // rejected, the server (and its push loop) keeps serving everything else
+                let k = rng.below(odd_urls.len() as u64) as usize;
+                steps.push(format!("odd-endpoint{}:{}", k, short(&name)));
+                match cx.create_sub_full(&name, &own_topic, 60, Some(odd_urls[k]), HashMap::new()).await {
+                    Ok(_) => {
+                        used_before.insert(name.clone());
+                        let inc = live_topic.get(&own_topic).copied().unwrap_or(0);
+                        subs.insert(name.clone(), MSub { topic: own_topic.clone(), topic_inc: inc, endpoint: Some(2 + k), expect: vec![], seen_by_pull: BTreeSet::new() });
+                        rep.inc("odd_endpoints_accepted");
+                    }
+                    Err(st) => {
+                        if !matches!(st.code() as i32, INVALID_ARGUMENT | ALREADY_EXISTS | NOT_FOUND) {
+                            rep.viol("C17", format!("C17:bad-status:CreateSubscription.push_endpoint:code={}", st.code() as i32), format!("push endpoint {:?}: {}", odd_urls[k], st.message()));
+                        }
+                        rep.inc("odd_endpoints_rejected");
+                    }
+                }
+            }
             10 => {
                 // a DeleteSubscription whose client goes away after a few scheduler turns, with the topic
                 // kept busy, and the same name created again at once (push, endpoint A or B): whatever
@@ -204,7 +225,7 @@ async fn episode(p: &EpParams) -> EpReport {
                 for (n, s) in subs.iter_mut() {
                     if s.topic == *t && s.topic_inc == inc {
                         s.expect.push(tag.clone());
-                        if let Some(e) = s.endpoint {
+                        if let Some(e) = s.endpoint.filter(|e| *e < 2) {
                             allowed.insert((tag.clone(), n.clone()), e);
                         }
                     }
@@ -248,6 +269,11 @@ async fn episode(p: &EpParams) -> EpReport {
             break;
         }
     }
+    // the push loop is still running (a panic inside it takes the whole server down in `main`)
+    if push_loop.is_finished() {
+        rep.viol("C17", "C17:push-loop-died", format!("the push loop task ended during the walk (steps {:?})", steps));
+        rep.viol("C14", "C14:push-loop-died", format!("the push loop task ended during the walk (steps {:?})", steps));
+    }
     // ---- oracle over the POST logs --------------------------------------------------------------------
     let mut n_posts = 0;
     let mut posted: BTreeSet<(String, String)> = BTreeSet::new();
@@ -283,7 +309,7 @@ async fn episode(p: &EpParams) -> EpReport {
     }
     // ---- hooked state: the registry lists exactly the model's push subscriptions -----------------------
     let reg = registry(&w);
-    let mut model: Vec<(String, String)> = subs.iter().filter_map(|(n, s)| s.endpoint.map(|e| (n.clone(), eps[e].url.clone()))).collect();
+    let mut model: Vec<(String, String)> = subs.iter().filter_map(|(n, s)| s.endpoint.map(|e| (n.clone(), if e < 2 { eps[e].url.clone() } else { odd_urls[e - 2].to_string() }))).collect();
     model.sort();
     if reg != model {
         rep.viol("C14", "C14:registry-differs-from-model", format!("push registry {:?}, live push subscriptions {:?} (steps {:?})", reg, model, steps));
